@@ -12,6 +12,7 @@ import (
 	"fmt"
 	"os"
 	"path/filepath"
+	"runtime/pprof"
 	"sort"
 	"strconv"
 	"strings"
@@ -86,6 +87,18 @@ func main() {
 	if v := os.Getenv("VERIF_DIR"); v != "" {
 		verifDir = v
 	}
+	if pf := os.Getenv("GOSYM_CPUPROFILE"); pf != "" {
+		if f, err := os.Create(pf); err == nil {
+			pprof.StartCPUProfile(f)
+			exit := func(c int) { pprof.StopCPUProfile(); f.Close(); os.Exit(c) }
+			switch os.Args[1] {
+			case "check":
+				exit(cmdCheck(os.Args[2:]))
+			case "run":
+				exit(cmdRun(os.Args[2:]))
+			}
+		}
+	}
 	switch os.Args[1] {
 	case "check":
 		os.Exit(cmdCheck(os.Args[2:]))
@@ -133,6 +146,10 @@ func applyHarnessOpts(o ExploreOpts, h *HarnessSpec, tier string) ExploreOpts {
 		o.Workers, _ = strconv.Atoi(v)
 	}
 	if v := get("minutes"); v != "" {
+		m, _ := strconv.ParseFloat(v, 64)
+		o.Deadline = time.Now().Add(time.Duration(m * float64(time.Minute)))
+	}
+	if v := os.Getenv("GOSYM_MINUTES"); v != "" { // debugging aid
 		m, _ := strconv.ParseFloat(v, 64)
 		o.Deadline = time.Now().Add(time.Duration(m * float64(time.Minute)))
 	}
